@@ -458,11 +458,11 @@ Qed.
 
 (** * the encoder's output *)
 
-Lemma go_varint_enc_block k (Hk : k = 32 \/ k = 64) last chunk rest :
-  go_varint (enc_block k last chunk ++ rest)
-  = Some (sintZ k (block_m k last chunk),
-          map width_of (chunks num_mini_blocks mini_block_size (cleared_block k last chunk))
-          ++ concat (map emit (chunks num_mini_blocks mini_block_size (cleared_block k last chunk))) ++ rest).
+Lemma go_varint_enc_block bs nmb vpm k (Hk : k = 32 \/ k = 64) last chunk rest :
+  go_varint (enc_block_g bs nmb vpm k last chunk ++ rest)
+  = Some (sintZ k (block_m bs k last chunk),
+          map width_of (chunks nmb vpm (cleared_block bs k last chunk))
+          ++ concat (map emit (chunks nmb vpm (cleared_block bs k last chunk))) ++ rest).
 Proof.
   rewrite enc_block_unfold, <- !app_assoc. apply go_varint64_roundtrip.
   apply (in_sint_64_of_k k _ Hk). apply sintZ_in_range; [destruct Hk; subst; lia|].
@@ -489,7 +489,7 @@ Proof.
   constructor; [now apply Forall_firstn|]. apply IH. now apply Forall_skipn.
 Qed.
 
-Lemma cleared_block_lt k last chunk : Forall (fun v => v < 2 ^ k) (cleared_block k last chunk).
+Lemma cleared_block_lt bs k last chunk : Forall (fun v => v < 2 ^ k) (cleared_block bs k last chunk).
 Proof.
   unfold cleared_block, pad_to. apply Forall_app. split.
   - apply Forall_firstn. apply Forall_forall. intros x Hx. apply in_map_iff in Hx.
@@ -497,52 +497,52 @@ Proof.
   - apply Forall_forall. intros x Hx. apply repeat_spec in Hx. subst x. apply pow2_pos.
 Qed.
 
-Lemma enc_widths_le k last chunk :
+Lemma enc_widths_le bs nmb vpm k last chunk :
   Forall (fun w => w <= k)
-    (map width_of (chunks num_mini_blocks mini_block_size (cleared_block k last chunk))).
+    (map width_of (chunks nmb vpm (cleared_block bs k last chunk))).
 Proof.
-  pose proof (chunks_forall _ mini_block_size num_mini_blocks _ (cleared_block_lt k last chunk)) as Hg.
+  pose proof (chunks_forall _ vpm nmb _ (cleared_block_lt bs k last chunk)) as Hg.
   apply Forall_forall. intros x Hx. apply in_map_iff in Hx. destruct Hx as (g & <- & Hin).
   rewrite Forall_forall in Hg. apply width_of_le. now apply Hg.
 Qed.
 
-Lemma dec_blocks64_ok k (Hk : k = 32 \/ k = 64) : forall fuel rest_vals last tail,
+Lemma dec_blocks64_ok bs nmb vpm (Hg : geom bs nmb vpm) k (Hk : k = 32 \/ k = 64) : forall fuel rest_vals last tail,
   (length rest_vals <= fuel)%nat ->
   last < 2 ^ k -> Forall (fun v => v < 2 ^ k) rest_vals ->
-  dec_blocks64 fuel k mini_block_size num_mini_blocks
-    (enc_blocks fuel k last rest_vals ++ tail) (length rest_vals) last
+  dec_blocks64 fuel k vpm nmb
+    (enc_blocks_g bs nmb vpm fuel k last rest_vals ++ tail) (length rest_vals) last
   = Some (rest_vals, tail).
 Proof.
   induction fuel as [|f IH]; intros vals last tail Hfuel Hlast Hvals.
   - destruct vals; [reflexivity|cbn in Hfuel; lia].
-  - cbn [enc_blocks dec_blocks64].
+  - cbn [enc_blocks_g dec_blocks64].
     destruct vals as [|v vals'] eqn:Ev; [reflexivity|].
     rewrite <- Ev in *. assert (Hne : (0 < length vals)%nat) by (subst vals; cbn; lia).
     clear Ev v vals'.
     destruct (Nat.eqb_spec (length vals) 0) as [E|_]; [lia|].
-    set (chunk := firstn block_size vals).
-    assert (Hcl : length chunk = Nat.min block_size (length vals)) by (subst chunk; apply firstn_length).
-    pose proof block_size_pos as Hbp.
+    set (chunk := firstn bs vals).
+    assert (Hcl : length chunk = Nat.min bs (length vals)) by (subst chunk; apply firstn_length).
+    pose proof (geom_bs_pos _ _ _ Hg) as Hbp.
     assert (Hchunk : Forall (fun v => v < 2 ^ k) chunk) by (subst chunk; apply Forall_firstn; exact Hvals).
-    destruct (dec_block_ok k Hk last chunk (length vals)
-                (enc_blocks f k (List.last chunk last) (skipn block_size vals) ++ tail)
+    destruct (dec_block_ok bs nmb vpm Hg k Hk last chunk (length vals)
+                (enc_blocks_g bs nmb vpm f k (List.last chunk last) (skipn bs vals) ++ tail)
                 Hlast Hchunk ltac:(lia) ltac:(lia) ltac:(lia)) as (m & Hm & Hvd & Hmb).
     rewrite <- app_assoc.
-    pose proof (go_varint_enc_block k Hk last chunk
-                  (enc_blocks f k (List.last chunk last) (skipn block_size vals) ++ tail)) as Hgv.
+    pose proof (go_varint_enc_block bs nmb vpm k Hk last chunk
+                  (enc_blocks_g bs nmb vpm f k (List.last chunk last) (skipn bs vals) ++ tail)) as Hgv.
     pose proof (go_varint_spec _ _ Hgv) as Hgs. rewrite Hvd in Hgs.
-    assert (Em : sintZ k (block_m k last chunk) = sintZ k m) by (inversion Hgs; reflexivity).
+    assert (Em : sintZ k (block_m bs k last chunk) = sintZ k m) by (inversion Hgs; reflexivity).
     rewrite Hgv, Em.
-    assert (Hwl : length (map width_of (chunks num_mini_blocks mini_block_size (cleared_block k last chunk))) = num_mini_blocks).
+    assert (Hwl : length (map width_of (chunks nmb vpm (cleared_block bs k last chunk))) = nmb).
     { rewrite map_length.
-      assert (Hcbl : length (cleared_block k last chunk) = (num_mini_blocks * mini_block_size)%nat).
-      { unfold cleared_block. rewrite pad_to_length; [apply block_size_eq|]. rewrite firstn_length. lia. }
-      destruct (chunks_exact mini_block_size mini_block_pos num_mini_blocks _ Hcbl) as (_ & _ & Hl). exact Hl. }
+      assert (Hcbl : length (cleared_block bs k last chunk) = (nmb * vpm)%nat).
+      { unfold cleared_block. rewrite pad_to_length; [exact (proj1 Hg)|]. rewrite firstn_length. lia. }
+      destruct (chunks_exact vpm (proj1 (proj2 (proj2 Hg))) nmb _ Hcbl) as (_ & _ & Hl). exact Hl. }
     rewrite <- Hwl at 1. rewrite DeltaBPProofs.take_bytes_app.
     rewrite wrapZ_sintZ by (destruct Hk; subst; lia || exact Hm).
     rewrite dec_mbs_w_eq by (apply enc_widths_le).
     rewrite Hmb.
-    replace (length vals - length chunk)%nat with (length (skipn block_size vals))
+    replace (length vals - length chunk)%nat with (length (skipn bs vals))
       by (rewrite skipn_length; lia).
     rewrite IH.
     + f_equal. f_equal. subst chunk. apply firstn_skipn.
@@ -551,28 +551,18 @@ Proof.
     + apply Forall_skipn. exact Hvals.
 Qed.
 
-Lemma enc_blocks_fuel k : forall f1 f2 last vals, (length vals <= f1)%nat -> (length vals <= f2)%nat ->
-  enc_blocks f1 k last vals = enc_blocks f2 k last vals.
-Proof.
-  induction f1 as [|f1 IHf]; intros f2 last vals H1 H2.
-  - destruct vals; [destruct f2; reflexivity|cbn in H1; lia].
-  - destruct f2 as [|f2]; [destruct vals; [reflexivity|cbn in H2; lia]|].
-    cbn [enc_blocks]. destruct vals as [|v vals'] eqn:Ev; [reflexivity|].
-    rewrite <- Ev in *. f_equal. apply IHf.
-    + rewrite skipn_length. pose proof block_size_pos. subst vals. cbn [length] in *. lia.
-    + rewrite skipn_length. pose proof block_size_pos. subst vals. cbn [length] in *. lia.
-Qed.
-
-(** [dec64] accepts what the encoder writes *)
-Theorem dec64_enc k (Hk : k = 32 \/ k = 64) xs tail :
+(** [dec64] accepts what the encoder writes, at every legal geometry *)
+Theorem dec64_enc_g bs nmb (Hl : legal_geometry bs nmb) k (Hk : k = 32 \/ k = 64) xs tail :
   Forall (in_sint k) xs -> N.of_nat (length xs) < 2 ^ 64 ->
-  dec64 k (enc k xs ++ tail) = Some (xs, tail).
+  dec64 k (enc_g bs nmb k xs ++ tail) = Some (xs, tail).
 Proof.
-  intros Hxs Hlen. unfold enc, dec64.
+  intros Hxs Hlen. unfold enc_g, dec64.
+  pose proof (legal_geom _ _ Hl) as Hg.
+  pose proof (geom_bs_pos _ _ _ Hg) as Hbp.
   assert (Hkpos : 0 < k) by (destruct Hk; subst; lia).
   rewrite <- !app_assoc.
-  rewrite go_uvarint64_roundtrip by apply block_size_small.
-  rewrite go_uvarint64_roundtrip by apply num_mini_blocks_small.
+  rewrite go_uvarint64_roundtrip by (apply Hl).
+  rewrite go_uvarint64_roundtrip by (apply (legal_nmb_small _ _ Hl)).
   rewrite go_uvarint64_roundtrip by exact Hlen.
   destruct xs as [|x xs'].
   - rewrite go_varint64_roundtrip by (unfold in_sint; cbn; lia).
@@ -580,12 +570,12 @@ Proof.
   - inversion Hxs as [|? ? Hx Hxs']; subst.
     rewrite go_varint64_roundtrip by (apply (in_sint_64_of_k k _ Hk); exact Hx).
     destruct (N.eqb_spec (N.of_nat (length (x :: xs'))) 0) as [E|_]; [cbn in E; lia|].
-    destruct (N.eqb_spec (N.of_nat num_mini_blocks) 0) as [E|_]; [exfalso; exact (nmb_nonzero E)|].
-    rewrite vpm_eq, !Nat2N.id.
+    destruct (N.eqb_spec (N.of_nat nmb) 0) as [E|_]; [destruct Hl; lia|].
+    rewrite legal_vpm_eq by (apply Hl). rewrite !Nat2N.id.
     cbn [map length].
     replace (S (length xs') - 1)%nat with (length (map (wrapZ k) xs')) by (rewrite map_length; lia).
-    pose proof (dec_blocks64_ok k Hk (S (length xs')) (map (wrapZ k) xs') (wrapZ k x) tail) as H.
-    rewrite (enc_blocks_fuel k (length (map (wrapZ k) xs')) (S (length xs')) (wrapZ k x) (map (wrapZ k) xs'))
+    pose proof (dec_blocks64_ok bs nmb (bs / nmb) Hg k Hk (S (length xs')) (map (wrapZ k) xs') (wrapZ k x) tail) as H.
+    rewrite (enc_blocks_fuel bs nmb (bs / nmb) Hbp k (length (map (wrapZ k) xs')) (S (length xs')) (wrapZ k x) (map (wrapZ k) xs'))
       by (rewrite map_length; lia).
     rewrite H.
     + f_equal. f_equal. cbn [map]. f_equal.
@@ -598,38 +588,73 @@ Proof.
     + apply wrapZ_all.
 Qed.
 
-Lemma block_size_128 : N.of_nat block_size = 128.
-Proof. vm_compute. reflexivity. Qed.
-Lemma num_mini_blocks_4 : N.of_nat num_mini_blocks = 4.
-Proof. vm_compute. reflexivity. Qed.
+Theorem dec64_enc k (Hk : k = 32 \/ k = 64) xs tail :
+  Forall (in_sint k) xs -> N.of_nat (length xs) < 2 ^ 64 ->
+  dec64 k (enc k xs ++ tail) = Some (xs, tail).
+Proof. exact (dec64_enc_g block_size num_mini_blocks go_geometry_legal k Hk xs tail). Qed.
+
+(** the geometries Go's decoders accept (decodeBinaryPackedHeader): a block
+    size that is a multiple of 128 and at most 65536, mini-blocks of a
+    multiple of 32 values -- the format's rule plus the upper bound *)
+Definition go_geometry (bs nmb : nat) : Prop :=
+  (0 < bs)%nat /\ (0 < nmb)%nat /\ (bs mod 128 = 0)%nat /\ N.of_nat bs <= 65536
+  /\ (bs mod nmb = 0)%nat /\ ((bs / nmb) mod 32 = 0)%nat.
+
+Lemma go_geometry_format_g bs nmb : go_geometry bs nmb -> format_geometry bs nmb.
+Proof.
+  intros (Hb & Hn & H128 & Hmax & Hd & H32). repeat split; try assumption.
+  change (2 ^ 64) with (2 ^ 47 * 131072). lia.
+Qed.
+
+Lemma go_geometry_go : go_geometry block_size num_mini_blocks.
+Proof. unfold go_geometry. repeat split; vm_compute; try reflexivity; try lia. intros H; discriminate H. Qed.
 
 (** Go accepts the header the encoder writes *)
-Lemma go_header_enc k (Hk : k = 32 \/ k = 64) xs tail :
+Lemma go_header_enc_g bs nmb (Hgo : go_geometry bs nmb) k (Hk : k = 32 \/ k = 64) xs tail :
   Forall (in_sint k) xs -> N.of_nat (length xs) <= max_int32 ->
-  exists first s, go_dbp_header (enc k xs ++ tail) = GOk (128%Z, 4%Z, Z.of_nat (length xs), first, s)
+  exists first s, go_dbp_header (enc_g bs nmb k xs ++ tail)
+                  = GOk (Z.of_nat bs, Z.of_nat nmb, Z.of_nat (length xs), first, s)
                   /\ first_ok k first.
 Proof.
-  intros Hxs Hlen. unfold enc, go_dbp_header.
+  intros Hxs Hlen. unfold enc_g, go_dbp_header.
+  destruct Hgo as (Hb & Hn & H128 & Hmax & Hd & H32).
   assert (Hmi : max_int32 < 2 ^ 31) by (vm_compute; reflexivity).
+  assert (Hnb : (nmb <= bs)%nat) by (apply Nat.mod_divides in Hd; [destruct Hd as (c & Hc); destruct c; [lia|]; rewrite Hc, Nat.mul_succ_r; lia|lia]).
   rewrite <- !app_assoc.
-  rewrite go_uvarint64_roundtrip by apply block_size_small.
-  rewrite go_uvarint64_roundtrip by apply num_mini_blocks_small.
+  rewrite go_uvarint64_roundtrip by (change (2 ^ 64) with (2 ^ 47 * 131072); lia).
+  rewrite go_uvarint64_roundtrip by (change (2 ^ 64) with (2 ^ 47 * 131072); lia).
   rewrite go_uvarint64_roundtrip by (change (2 ^ 64) with (2 ^ 33 * 2 ^ 31); lia).
   assert (Hfirst : in_sint k (match xs with [] => 0%Z | x :: _ => x end)).
   { destruct xs as [|x xs']; [destruct Hk; subst; unfold in_sint; cbn; lia|]. now inversion Hxs. }
   rewrite go_varint64_roundtrip by (apply (in_sint_64_of_k k _ Hk); exact Hfirst).
-  rewrite block_size_128, num_mini_blocks_4.
-  change (to_int64 128) with 128%Z. change (to_int64 4) with 4%Z.
-  cbn [Z.eqb Z.leb Z.compare orb negb Z.rem Z.quot Z.quotrem Z.ltb].
+  assert (Esmall : forall n : nat, N.of_nat n <= 2147483647 -> to_int64 (N.of_nat n) = Z.of_nat n).
+  { intros n Hle. unfold to_int64. change (2 ^ 63) with (2 ^ 32 * 2147483648).
+    destruct (N.ltb_spec (N.of_nat n) (2 ^ 32 * 2147483648)); lia. }
+  rewrite (Esmall bs) by lia. rewrite (Esmall nmb) by lia.
   assert (Et : to_int64 (N.of_nat (length xs)) = Z.of_nat (length xs)).
-  { unfold to_int64. change (2 ^ 63) with (2 ^ 32 * 2 ^ 31).
-    destruct (N.ltb_spec (N.of_nat (length xs)) (2 ^ 32 * 2 ^ 31)); lia. }
+  { apply Esmall. change max_int32 with 2147483647 in Hlen. lia. }
   rewrite Et.
+  destruct (Z.eqb_spec (Z.of_nat nmb) 0); [lia|].
+  destruct (Z.leb_spec (Z.of_nat bs) 0); [lia|]. cbn [orb].
+  rewrite Z.rem_mod_nonneg by lia.
+  change 128%Z with (Z.of_nat 128). rewrite <- Nat2Z.inj_mod, H128. cbn [Z.of_nat Z.eqb negb].
+  destruct (Z.ltb_spec max_block_size (Z.of_nat bs)); [unfold max_block_size in *; lia|].
+  destruct (Z.leb_spec (Z.of_nat nmb) 0); [lia|]. cbn [orb].
+  rewrite Z.quot_div_nonneg by lia. rewrite <- Nat2Z.inj_div.
+  rewrite Z.rem_mod_nonneg by lia.
+  change 32%Z with (Z.of_nat 32). rewrite <- Nat2Z.inj_mod, H32.
+  cbn [Z.of_nat Z.eqb negb].
   destruct (Z.ltb_spec (Z.of_nat (length xs)) 0); [lia|].
   destruct (Z.ltb_spec (Z.of_N max_int32) (Z.of_nat (length xs))); [lia|].
   eexists _, _. split; [reflexivity|].
   intros ->. exact Hfirst.
 Qed.
+
+Lemma go_header_enc k (Hk : k = 32 \/ k = 64) xs tail :
+  Forall (in_sint k) xs -> N.of_nat (length xs) <= max_int32 ->
+  exists first s, go_dbp_header (enc k xs ++ tail) = GOk (128%Z, 4%Z, Z.of_nat (length xs), first, s)
+                  /\ first_ok k first.
+Proof. exact (go_header_enc_g block_size num_mini_blocks go_geometry_go k Hk xs tail). Qed.
 
 (** every byte the encoder writes is a byte *)
 Lemma concat_wf (ls : list bytes) : Forall wf_bytes ls -> wf_bytes (concat ls).
@@ -637,15 +662,15 @@ Proof.
   induction 1 as [|l ls Hl Hls IH]; [constructor|]. cbn [concat]. apply wf_bytes_app. split; assumption.
 Qed.
 
-Lemma enc_block_wf k (Hk : k = 32 \/ k = 64) last chunk : wf_bytes (enc_block k last chunk).
+Lemma enc_block_wf bs nmb vpm k (Hk : k = 32 \/ k = 64) last chunk : wf_bytes (enc_block_g bs nmb vpm k last chunk).
 Proof.
   rewrite enc_block_unfold.
-  assert (Hc : Forall (fun v => v < 2 ^ k) (cleared_block k last chunk)).
+  assert (Hc : Forall (fun v => v < 2 ^ k) (cleared_block bs k last chunk)).
   { unfold cleared_block, pad_to. apply Forall_app. split.
     - apply Forall_firstn. apply Forall_forall. intros x Hx. apply in_map_iff in Hx.
       destruct Hx as (d & <- & _). apply subk_lt.
     - apply Forall_forall. intros x Hx. apply repeat_spec in Hx. subst x. apply pow2_pos. }
-  pose proof (chunks_forall _ mini_block_size num_mini_blocks _ Hc) as Hg.
+  pose proof (chunks_forall _ vpm nmb _ Hc) as Hg.
   apply wf_bytes_app. split; [apply uvarint_enc_wf|].
   apply wf_bytes_app. split.
   - apply Forall_forall. intros x Hx. apply in_map_iff in Hx. destruct Hx as (g & <- & Hin).
@@ -654,33 +679,45 @@ Proof.
     destruct Hx as (g & <- & _). apply to_le_wf.
 Qed.
 
-Lemma enc_blocks_wf k (Hk : k = 32 \/ k = 64) : forall fuel last vals, wf_bytes (enc_blocks fuel k last vals).
+Lemma enc_blocks_wf bs nmb vpm k (Hk : k = 32 \/ k = 64) : forall fuel last vals, wf_bytes (enc_blocks_g bs nmb vpm fuel k last vals).
 Proof.
-  induction fuel as [|f IH]; intros last vals; cbn [enc_blocks]; [constructor|].
+  induction fuel as [|f IH]; intros last vals; cbn [enc_blocks_g]; [constructor|].
   destruct vals; [constructor|]. apply wf_bytes_app. split; [now apply enc_block_wf|apply IH].
 Qed.
 
-Lemma enc_wf k (Hk : k = 32 \/ k = 64) xs : wf_bytes (enc k xs).
+Lemma enc_g_wf bs nmb k (Hk : k = 32 \/ k = 64) xs : wf_bytes (enc_g bs nmb k xs).
 Proof.
-  unfold enc. repeat (apply wf_bytes_app; split); try apply uvarint_enc_wf.
+  unfold enc_g. repeat (apply wf_bytes_app; split); try apply uvarint_enc_wf.
   destruct (map (wrapZ k) xs); [constructor|now apply enc_blocks_wf].
 Qed.
 
-(** Go decodeInt32/64 (Go encodeInt32/64 xs ++ tail) = (xs, tail), and so does
-    the specification decoder *)
-Theorem go_dbp_roundtrip k (Hk : k = 32 \/ k = 64) xs tail :
+Lemma enc_wf k (Hk : k = 32 \/ k = 64) xs : wf_bytes (enc k xs).
+Proof. exact (enc_g_wf block_size num_mini_blocks k Hk xs). Qed.
+
+(** Go decodeInt32/64 (encode xs ++ tail) = (xs, tail) for the encoder at EVERY
+    geometry Go's header checks admit (and so does the specification decoder:
+    [dec_enc_g]): pages of writers that choose another block size or
+    mini-block count than Go's 128 / 4 decode to the values written *)
+Theorem go_dbp_roundtrip_g bs nmb (Hgo : go_geometry bs nmb) k (Hk : k = 32 \/ k = 64) xs tail :
   Forall (in_sint k) xs -> N.of_nat (length xs) <= max_int32 -> wf_bytes tail ->
-  go_dbp_dec k (enc k xs ++ tail) = GOk (xs, tail).
+  go_dbp_dec k (enc_g bs nmb k xs ++ tail) = GOk (xs, tail).
 Proof.
   intros Hxs Hlen Hwt.
   assert (Hmi : max_int32 < 2 ^ 31) by (vm_compute; reflexivity).
-  destruct (go_header_enc k Hk xs tail Hxs Hlen) as (first & s & Hh & Hf).
+  destruct (go_header_enc_g bs nmb Hgo k Hk xs tail Hxs Hlen) as (first & s & Hh & Hf).
   eapply go_dbp_refines.
-  - apply wf_bytes_app. split; [now apply enc_wf|exact Hwt].
-  - apply dec64_enc; [exact Hk|exact Hxs|]. change (2 ^ 64) with (2 ^ 33 * 2 ^ 31). lia.
+  - apply wf_bytes_app. split; [now apply enc_g_wf|exact Hwt].
+  - apply dec64_enc_g; [apply format_geometry_legal, go_geometry_format_g, Hgo|exact Hk|exact Hxs|].
+    change (2 ^ 64) with (2 ^ 33 * 2 ^ 31). lia.
   - exact Hh.
   - exact Hf.
 Qed.
+
+(** Go decodeInt32/64 (Go encodeInt32/64 xs ++ tail) = (xs, tail) *)
+Theorem go_dbp_roundtrip k (Hk : k = 32 \/ k = 64) xs tail :
+  Forall (in_sint k) xs -> N.of_nat (length xs) <= max_int32 -> wf_bytes tail ->
+  go_dbp_dec k (enc k xs ++ tail) = GOk (xs, tail).
+Proof. exact (go_dbp_roundtrip_g block_size num_mini_blocks go_geometry_go k Hk xs tail). Qed.
 
 (** * DELTA_LENGTH_BYTE_ARRAY *)
 
@@ -745,6 +782,24 @@ Proof.
   - pose proof (unflatten_ok vs [] []) as H. cbn [app length N.of_nat] in H. now rewrite app_nil_r in H.
 Qed.
 
+(** ... with the lengths written at any geometry Go's header checks admit *)
+Theorem go_dlba_roundtrip_g bs nmb vs :
+  go_geometry bs nmb -> Forall short vs -> Forall wf_bytes vs ->
+  N.of_nat (length vs) <= max_int32 -> N.of_nat (length (concat vs)) < 2 ^ 32 ->
+  go_dlba_dec (dlba_enc_g bs nmb vs) = GOk (concat vs, offsets_from 0 vs).
+Proof.
+  intros Hgo Hs Hwf Hn Hl.
+  unfold go_dlba_dec, dlba_enc_g.
+  rewrite (go_dbp_roundtrip_g bs nmb Hgo 32 (or_introl eq_refl)).
+  + cbn [gbind]. rewrite go_lengths_offsets_ok by (rewrite N.add_0_l; exact Hl).
+    rewrite N.add_0_l.
+    assert (Hf : fits_len (N.of_nat (length (concat vs))) (concat vs) = true) by (apply fits_len_true; lia).
+    rewrite Hf. cbn [negb]. now rewrite Nat2N.id, firstn_all.
+  + now apply lengths_in_range.
+  + unfold lengths_of. now rewrite map_length.
+  + now apply concat_wf.
+Qed.
+
 (** * DELTA_BYTE_ARRAY *)
 
 Lemma go_dba_loop_ok vs : forall prev tail,
@@ -787,6 +842,52 @@ Proof.
   - now apply prefixes_in_range.
   - now rewrite map_length, prefixes_length.
   - apply wf_bytes_app. split; [apply enc_wf; now left|]. apply concat_wf. now apply suffixes_wf.
+Qed.
+
+(** ... at any geometry of the two sections that Go's header checks admit, with
+    prefixes capped at any length *)
+Lemma go_dba_loop_c_ok cap vs : forall prev tail,
+  go_dba_loop (map Z.of_nat (prefixes_c cap prev vs)) (lengths_of (suffixes_c cap prev vs))
+              (concat (suffixes_c cap prev vs) ++ tail) prev = GOk (vs, tail).
+Proof.
+  induction vs as [|v r IH]; intros prev tail;
+    cbn [prefixes_c suffixes_c map lengths_of go_dba_loop concat app]; [reflexivity|].
+  destruct (lcp_le prev v) as [H1 H2].
+  set (p := Nat.min cap (lcp prev v)).
+  destruct (Z.ltb_spec (Z.of_nat (length (skipn p v))) 0); [lia|].
+  rewrite <- app_assoc, app_length.
+  destruct (Z.ltb_spec (Z.of_nat (length (skipn p v) + length (concat (suffixes_c cap v r) ++ tail)))
+                       (Z.of_nat (length (skipn p v)))); [lia|].
+  destruct (Z.ltb_spec (Z.of_nat p) 0); [lia|].
+  destruct (Z.ltb_spec (Z.of_nat (length prev)) (Z.of_nat p)); [subst p; lia|].
+  rewrite !Nat2Z.id, firstn_app_exact, skipn_app_exact.
+  subst p. rewrite capped_prefix, firstn_skipn.
+  fold (lengths_of (suffixes_c cap v r)). rewrite IH. reflexivity.
+Qed.
+
+Lemma suffixes_c_wf cap vs : forall prev, Forall wf_bytes vs -> Forall wf_bytes (suffixes_c cap prev vs).
+Proof.
+  induction vs as [|v r IH]; intros prev H; cbn [suffixes_c]; [constructor|].
+  inversion H; subst. constructor; [now apply Forall_skipn|now apply IH].
+Qed.
+
+Theorem go_dba_roundtrip_g cap bs1 nmb1 bs2 nmb2 vs :
+  go_geometry bs1 nmb1 -> go_geometry bs2 nmb2 ->
+  Forall short vs -> Forall wf_bytes vs -> N.of_nat (length vs) <= max_int32 ->
+  go_dba_dec (dba_enc_g cap bs1 nmb1 bs2 nmb2 vs) = GOk vs.
+Proof.
+  intros Hg1 Hg2 Hs Hwf Hn. unfold go_dba_dec, go_dba_dec_rest, dba_enc_g.
+  rewrite (go_dbp_roundtrip_g bs1 nmb1 Hg1 32 (or_introl eq_refl)).
+  - cbn [gbind]. rewrite (go_dbp_roundtrip_g bs2 nmb2 Hg2 32 (or_introl eq_refl)).
+    + cbn [gbind]. rewrite map_length, prefixes_c_length.
+      unfold lengths_of at 1. rewrite map_length, suffixes_c_length, Nat.eqb_refl. cbn [negb].
+      rewrite <- (app_nil_r (concat _)), go_dba_loop_c_ok. reflexivity.
+    + apply lengths_in_range. now apply suffixes_c_short.
+    + unfold lengths_of. now rewrite map_length, suffixes_c_length.
+    + apply concat_wf. now apply suffixes_c_wf.
+  - now apply prefixes_c_in_range.
+  - now rewrite map_length, prefixes_c_length.
+  - apply wf_bytes_app. split; [apply enc_g_wf; now left|]. apply concat_wf. now apply suffixes_c_wf.
 Qed.
 
 (** * What is outside: witnesses *)
